@@ -71,7 +71,7 @@ var c52Escapers = map[string]bool{
 }
 
 type c52cls struct {
-	consts map[string]bool     // package-level constants
+	consts map[string]bool       // package-level constants
 	assign map[string][]ast.Expr // local variable -> assigned expressions (current function)
 	depth  int
 }
